@@ -44,6 +44,10 @@ pub struct SInner {
     /// one-shot: after the first successful get of this class ("ckpt", "man", "seg") the store holds this image
     /// instead (another writer published in between)
     pub swap_after: Option<(String, BTreeMap<String, Vec<u8>>)>,
+    /// the next put is held (after its fault was drawn) until `release`: another task's calls overtake it
+    pub hold_next_put: bool,
+    pub held: bool,
+    pub release: bool,
 }
 
 #[derive(Clone)]
@@ -180,6 +184,23 @@ impl ObjectStore for ScriptedObjectStore {
             // "put_tmp" is the write of the new manifest, whichever key an implementation writes it to
             let class = if kind == "man" { "put_tmp".to_string() } else { format!("put_{kind}") };
             let fault = self.fault_for(&class);
+            let hold = {
+                let mut g = self.inner.lock().unwrap();
+                let h = g.hold_next_put;
+                if h {
+                    g.hold_next_put = false;
+                    g.held = true;
+                }
+                h
+            };
+            if hold {
+                for _ in 0..100_000 {
+                    if self.inner.lock().unwrap().release {
+                        break;
+                    }
+                    tokio::task::yield_now().await;
+                }
+            }
             let mut ev = json!({"a": "call", "who": self.actor, "op": "put", "key": key, "kind": kind, "id": id});
             if kind == "man" {
                 // a manifest written in place becomes current at once: log what it lists
@@ -633,11 +654,51 @@ async fn run_wbuf_async(scn: Value, store: ScriptedObjectStore) {
     if let Some(bp) = scn["backpressure"].as_u64() {
         cfg.backpressure_threshold_bytes = bp as usize;
     }
-    let wb = WriteBuffer::new(Arc::new(store.clone()), "wb".to_string(), cfg);
+    let wb = Arc::new(WriteBuffer::new(Arc::new(store.clone()), "wb".to_string(), cfg));
+    let seg_ids = |store: &ScriptedObjectStore, key: &str| -> Option<Vec<u64>> {
+        let data = store.inner.lock().unwrap().objs.get(key).cloned()?;
+        let ds = SegmentReader::open(&data).and_then(|r| r.read_all()).ok()?;
+        Some(ds.iter().filter_map(|d| d.key.strip_prefix("wk").and_then(|x| x.parse::<u64>().ok())).collect())
+    };
     let mut n = 0u64;
     for (i, op) in ops.iter().enumerate() {
         store.inner.lock().unwrap().cur_op.insert("F".into(), i + 1);
         match op.as_str() {
+            // two flushes overlap (the flush worker and the delta-sink worker share the buffer): A takes the buffer and
+            // is held inside its upload (a scripted fault, if any, is A's); one more delta arrives; B takes it, uploads
+            // and returns; then A's upload completes or fails
+            "c" => {
+                {
+                    let mut g = store.inner.lock().unwrap();
+                    g.hold_next_put = true;
+                    g.held = false;
+                    g.release = false;
+                }
+                let wa = wb.clone();
+                let ta = tokio::spawn(async move { wa.flush().await });
+                for _ in 0..10_000 {
+                    if store.inner.lock().unwrap().held || ta.is_finished() {
+                        break;
+                    }
+                    tokio::task::yield_now().await;
+                }
+                let a_held = store.inner.lock().unwrap().held;
+                store.inner.lock().unwrap().hold_next_put = false;
+                n += 1;
+                let d = mk_delta(&json!({"k": format!("wk{n}"), "t": "set", "v": format!("v{n}"), "ts": n, "r": 1}));
+                let y_ok = wb.push(d).is_ok();
+                let rb = wb.flush().await;
+                store.inner.lock().unwrap().release = true;
+                let ra = ta.await;
+                let side = |r: &Result<Option<String>, String>| match r {
+                    Ok(Some(k)) => json!({"ok": true, "seg": seg_ids(&store, k).unwrap_or_default(), "unreadable": seg_ids(&store, k).is_none()}),
+                    Ok(None) => json!({"ok": true, "seg": [], "unreadable": false}),
+                    Err(_) => json!({"ok": false, "seg": [], "unreadable": false}),
+                };
+                let ra2: Result<Option<String>, String> = match ra { Ok(r) => r.map_err(|e| e.to_string()), Err(e) => Err(format!("task: {e}")) };
+                let rb2: Result<Option<String>, String> = rb.map_err(|e| e.to_string());
+                store.log(json!({"a": "wconc", "y": n, "y_ok": y_ok, "held": a_held, "fa": side(&ra2), "fb": side(&rb2), "pending": wb.pending_count()}));
+            }
             "p" => {
                 n += 1;
                 let d = mk_delta(&json!({"k": format!("wk{n}"), "t": "set", "v": format!("v{n}"), "ts": n, "r": 1}));
@@ -659,6 +720,14 @@ async fn run_wbuf_async(scn: Value, store: ScriptedObjectStore) {
             }
         }
     }
+    // audit: what the segments in the store hold at the end (a segment a flush reported written stays as written)
+    let keys: Vec<String> = store.inner.lock().unwrap().objs.keys().filter(|k| k.contains("segment-")).cloned().collect();
+    let mut stored: Vec<u64> = Vec::new();
+    for k in keys {
+        stored.extend(seg_ids(&store, &k).unwrap_or_default());
+    }
+    stored.sort();
+    store.log(json!({"a": "waudit", "stored": stored}));
 }
 
 pub fn run_wbuf(run: usize, scn: &Value, out: &mut Out) {
@@ -683,10 +752,10 @@ pub fn run_wbuf(run: usize, scn: &Value, out: &mut Out) {
 
 fn random_wbuf(rng: &mut impl Rng) -> Value {
     let n = rng.gen_range(2..=12usize);
-    let ops: Vec<&str> = (0..n).map(|_| ["p", "p", "p", "f"][rng.gen_range(0..4)]).collect();
+    let ops: Vec<&str> = (0..n).map(|_| ["p", "p", "p", "f", "p", "f", "c"][rng.gen_range(0..7)]).collect();
     let mut faults = Vec::new();
     for (i, o) in ops.iter().enumerate() {
-        if *o == "f" && rng.gen_range(0..3) == 0 {
+        if (*o == "f" || *o == "c") && rng.gen_range(0..3) == 0 {
             let kind = ["fail", "partial"][rng.gen_range(0..2)];
             faults.push(json!([i + 1, kind]));
         }
